@@ -126,8 +126,9 @@ PER_PROPERTY = {
                        "function factor(kind, mw, dens, sa, from, to) * SI prefixes: one obligation per substance kind x "
                        "ordered unit pair x prefix pair with symbolic amount and physical constants; linearity, "
                        "composition and round-trip lemmas over the specification; functools.cache transparency",
-        'assumptions': ["T7 functools.cache is transparent (checked separately by the cache-transparent obligation on "
-                        "equal-named substances)", "default densities: symbolic positive configuration values"],
+        'assumptions': ["T7 functools.cache: the same object is handed out again within a run (arguments keyed by value for plain "
+                        "values and texts, by identity for objects); equal-but-distinct objects sharing an entry is "
+                        "checked separately by the cache-transparent obligation", "default densities: symbolic positive configuration values"],
     },
     'C13': {},
     'C14': {
